@@ -289,10 +289,34 @@ class History:
                 self.failed_last.add(st.name)
         return ok
 
-    def stale_cause(self, st, ran):
+    def engine_view_reachable(self, nodes):
+        """Names of statements reachable from `nodes` when every already-built statement whose declared inputs changed WITHOUT a
+        command-line change (or which is a generator) is followed through the inputs it had when it last ran: what a tool that only
+        rescans previously requested dependencies can see (known finding C18 'dependency newly declared ...')."""
+        man = self.man
+        need, work = set(), list(nodes)
+        while work:
+            n = work.pop()
+            p = man.producer(n)
+            if p is None or p.name in need:
+                continue
+            need.add(p.name)
+            deps = self.deps_of(p)
+            old = self.ok_deps.get(p.name)
+            if p.name in self.last_ok and old is not None and old != deps and (self.ok_cmdline.get(p.name) == self.cmdline(p) or p.generator):
+                deps = old
+            for lst in deps:
+                work.extend(lst)
+        return need
+
+    def stale_cause(self, st, ran, nodes=None):
         """Why should `st` have re-run? (classification for the violation key)"""
         if st.name in ran:
             return "it ran, but with inputs that were not yet up to date"
+        if nodes is not None and st.name not in self.engine_view_reachable(nodes):
+            return ("its command never ran: it is needed through a dependency newly declared in the manifest for a command whose command line did not change"
+                    if st.name not in self.last_ok else
+                    "its command did not re-run although changed: declared inputs in the manifest (it is only reachable through a dependency newly declared for a command whose command line did not change)")
         if st.name not in self.last_ok:
             # distinguish the case where the statement is needed only because a dependency on it was newly declared for an
             # already-built statement whose command line did not change (one known defect) from every other reason
@@ -312,7 +336,7 @@ class History:
                         continue
                     if c.name not in self.last_ok:
                         work.append(c)
-                    elif self.ok_deps.get(c.name) != self.deps_of(c) and self.ok_cmdline.get(c.name) == self.cmdline(c):
+                    elif self.ok_deps.get(c.name) != self.deps_of(c) and (self.ok_cmdline.get(c.name) == self.cmdline(c) or c.generator):   # a generator statement is documented not to re-run for a changed command line
                         return "its command never ran: it is needed through a dependency newly declared in the manifest for a command whose command line did not change"
             return "its command never ran"
         t = self.last_ok[st.name]
@@ -376,7 +400,7 @@ class History:
             self.res["inconclusive"].append("prediction and the real ninja's clean build disagree (seed %d index %d): %s" % (self.seed, self.index, bad[0][1]))
             return False
         st, o, got = bad[0]     # first in topological order: its inputs are as predicted
-        self.viol("after a successful build an output differs from the clean-build content: " + self.stale_cause(st, ran), b,
+        self.viol("after a successful build an output differs from the clean-build content: " + self.stale_cause(st, ran, nodes), b,
                   dict(output=o, on_disk=(got[:60] if got is not None else None), clean=pred[o][:60], stale=[x[1] for x in bad][:8]))
         return False
 
